@@ -63,9 +63,9 @@ def run(chk, replay=None):
                         "everywhere else the sanitizer observer sees it",
                         "strides >= N and buffers of (size-1)*stride + N cells are the declared extent of a limb vector"]
     # 1. models with the oob ghost
-    for mod, cfg, role in (("Vmp", "Vmp_quick.cfg", "no address outside the prepared matrix, scratch <= *_tmp_bytes"),
+    for mod, cfg, role in (("Vmp", ("Vmp_quick.cfg" if quick else "Vmp_thorough.cfg"), "no address outside the prepared matrix, scratch <= *_tmp_bytes"),
                            ("Normalize", "Normalize_small.cfg", "no limb outside res/a for sizes 0.."),
-                           ("LimbLoops", "LimbLoops_quick.cfg", "writes exactly the res limbs"),
+                           ("LimbLoops", ("LimbLoops_quick.cfg" if quick else "LimbLoops_thorough.cfg"), "writes exactly the res limbs"),
                            ("RingMaps", "RingMaps_small.cfg", "no index outside 0..N-1")):
         r = run_tlc(mod, cfg, workers=16, coverage=True, name="c11-" + mod, timeout=1800)
         tlc_must_pass(r, mod)
